@@ -41,6 +41,9 @@ pub struct Weights {
     /// judges every former member: a member removed by a commit that later loses the race and then
     /// re-invited on that branch is the listed O22 situation in a new guise)
     pub reinvite: bool,
+    /// `add_members` may be given a second key package of somebody who already is a member (the
+    /// identity then holds two leaves; only C05 judges what a removal by name does to them)
+    pub second_leaf: bool,
 }
 
 impl Default for Weights {
@@ -73,6 +76,7 @@ impl Default for Weights {
             burst: 0,
             vanish: 0,
             reinvite: false,
+            second_leaf: false,
         }
     }
 }
@@ -90,7 +94,7 @@ pub fn data_change() -> impl Strategy<Value = DataChange> {
         3 => (0u8..4).prop_map(DataChange::Name),
         2 => (0u8..4).prop_map(DataChange::Description),
         2 => (0u8..6).prop_map(DataChange::Relays),
-        1 => (0u8..6).prop_map(DataChange::RelayShapes),
+        1 => (0u8..7).prop_map(DataChange::RelayShapes),
         2 => (0u8..4).prop_map(DataChange::RotateId),
         1 => (0u8..4).prop_map(DataChange::Image),
         1 => Just(DataChange::ClearImage),
@@ -129,7 +133,7 @@ pub fn op_strategy(w: &Weights) -> BoxedStrategy<Op> {
     ));
     v.push((
         w.add,
-        (m, ts.clone(), ap.clone(), if w.reinvite { prop_oneof![3 => Just(0u8), 1 => Just(1u8), 2 => Just(2u8)].boxed() } else { prop_oneof![3 => Just(0u8), 1 => Just(1u8)].boxed() })
+        (m, ts.clone(), ap.clone(), if w.second_leaf { prop_oneof![3 => Just(0u8), 1 => Just(1u8), 2 => Just(2u8), 2 => Just(3u8)].boxed() } else if w.reinvite { prop_oneof![3 => Just(0u8), 1 => Just(1u8), 2 => Just(2u8)].boxed() } else { prop_oneof![3 => Just(0u8), 1 => Just(1u8)].boxed() })
             .prop_map(|(m, ts, apply, extra)| Op::Add { m, ts, apply, extra })
             .boxed(),
     ));
@@ -395,6 +399,71 @@ pub fn leave_swept_into_add_prelude(p: &mut Plan, leaver: u8) {
         Op::CatchUp { m: mem(3 - l) },
         Op::Msg { m: act(0), kind: 0, at: 0, tag: 0 },
         Op::CatchUp { m: mem(l) },
+    ];
+    p.ops.truncate(25);
+    let tail = std::mem::take(&mut p.ops);
+    p.ops = pre;
+    p.ops.extend(tail);
+}
+
+/// Directed prelude (C05): the admin adds a second key package of a member (that identity then
+/// holds two leaves), everybody applies it, then the admin removes that member by name.
+pub fn second_leaf_then_remove_prelude(p: &mut Plan, with_others: bool) {
+    p.setup.members = p.setup.members.max(3);
+    p.setup.regime = Regime::Causal;
+    let n_act = p.setup.members as u32 + p.setup.spares as u32;
+    let mem = |i: u32| (((i << 16) / n_act) + 1) as u16;
+    let mut pre = vec![
+        Op::Add { m: 0, ts: 1, apply: Apply::Echo, extra: 3 },
+        Op::SelfEcho { m: mem(0) },
+    ];
+    for i in 1..p.setup.members as u32 {
+        pre.push(Op::CatchUp { m: mem(i) });
+    }
+    // (the removal prefers an identity with two leaves; `extra` adds further names)
+    pre.push(Op::Remove { m: 0, target: 0, ts: 2, apply: Apply::Echo, extra: if with_others { 2 } else { 1 } });
+    pre.push(Op::SelfEcho { m: mem(0) });
+    for i in 1..p.setup.members as u32 {
+        pre.push(Op::CatchUp { m: mem(i) });
+    }
+    p.ops.truncate(25);
+    let tail = std::mem::take(&mut p.ops);
+    p.ops = pre;
+    p.ops.extend(tail);
+}
+
+/// Directed prelude (C08): the relay set is emptied; a member asks to leave and only the creator
+/// sees the request (and commits it: W); another admin changes the relays a little later (L). The
+/// observer applies L, then meets W: the better commit makes it roll back to the epoch with the
+/// empty relay set, and W itself cannot be applied there (the request never reached the observer).
+/// What is stored must mirror the MLS state of the epoch it is back in.
+pub fn empty_relays_rollback_prelude(p: &mut Plan, observer_sql: bool) {
+    use crate::world::{BackendKind, DataChange};
+    p.setup.members = 4;
+    p.setup.admin_mask |= 1; // c1 is an admin too
+    p.setup.regime = Regime::Unrestricted;
+    p.setup.side = 0;
+    p.setup.twin = false;
+    p.setup.cfg.retention = p.setup.cfg.retention.max(2);
+    if p.setup.backends.len() > 2 {
+        p.setup.backends[2] = if observer_sql { BackendKind::Sql } else { BackendKind::Mem };
+    }
+    let n_act = 4 + p.setup.spares as u32;
+    let act = |i: u32| (((i << 16) / 4) + 1) as u16;
+    let mem = |i: u32| (((i << 16) / n_act) + 1) as u16;
+    let pre = vec![
+        Op::Data { m: act(0), ts: 0, apply: Apply::Echo, change: DataChange::RelayShapes(6) },
+        Op::SelfEcho { m: mem(0) },
+        Op::CatchUp { m: mem(1) },
+        Op::CatchUp { m: mem(2) },
+        Op::CatchUp { m: mem(3) },
+        Op::Leave { m: act(3), ts: 0 },
+        // the creator sees the request and commits it at once
+        Op::Deliver { m: mem(0), sel: u16::MAX },
+        Op::Data { m: act(1), ts: 5, apply: Apply::Echo, change: DataChange::Relays(2) },
+        // the observer: the later commit first, then the earlier one (never the request)
+        Op::Deliver { m: mem(2), sel: u16::MAX },
+        Op::Deliver { m: mem(2), sel: u16::MAX },
     ];
     p.ops.truncate(25);
     let tail = std::mem::take(&mut p.ops);
